@@ -242,10 +242,18 @@ pub fn decode(bytes: &[u8], dict: &Dict, opt: &Options) -> Value {
     m.insert("root_end".into(), json!(root_end));
 
     if opt.sectors {
+        // Sectors the decoder itself read as tables (FAT, DIFAT, directory, MiniFAT) are replaced
+        // by an opaque token when they have many runs; every other sector is data of some stream
+        // (or free) and is reported in full up to a generous run limit.
+        let mut table: HashSet<i64> = HashSet::new();
+        for v in fat_secs.iter().chain(difat_secs.iter()).chain(dir_secs.iter()).chain(mf_secs.iter()) {
+            table.insert(*v);
+        }
         let mut secs: Vec<Value> = Vec::with_capacity(nsec);
         for s in 0..nsec {
             let b = sector(bytes, slen, s, &mut scratch);
-            secs.push(rle::to_json_or_hash(b, opt.max_runs));
+            let limit = if table.contains(&(s as i64)) { opt.max_runs } else { opt.max_runs * 40 };
+            secs.push(rle::to_json_or_hash(b, limit));
         }
         m.insert("sec".into(), Value::Array(secs));
         let mut minis: Vec<Value> = Vec::new();
